@@ -75,8 +75,8 @@ def run(chk):
     for r in tbl.rows:
         for (pk, pe) in [("M", 0)] + ([chk.rng.choice(qtylib.accepted_prefixes(r))] if (r.metric or r.binary) else []):
             cases.append(("definition", "B", ("lit", qtylib.f2bits(1.0), [qtylib.Factor((r.name, pk, pe, 1, 1))]), None))
-    n_direct = 1400 if quick else 12000
-    n_src = 500 if quick else 4000
+    n_direct = 1100 if quick else 12000
+    n_src = 400 if quick else 4000
     n_bad = 200 if quick else 1500
     for _ in range(n_direct):
         t, _d = gen.tree(chk.rng.choice([1, 2, 2, 3, 3, 4, 5]))
@@ -86,6 +86,21 @@ def run(chk):
         src = qtylib.tree_src(tbl, t, chk.rng)
         if src is not None:
             cases.append(("tree-src", "S", t, src))
+    # displayed results that go through the registry-based simplification: products with a prefix on every
+    # factor (sizes 1e-45..1e45 in base units) whose dimension is that of some table unit, and sums of two of them
+    for _ in range(250 if quick else 2500):
+        u = gen.registry_product()
+        if u is None:
+            continue
+        t = ("lit", qtylib.f2bits(chk.rng.choice([1.0, 6.0, 2.5, chk.rng.uniform(0.1, 100)])), u)
+        if chk.rng.random() < 0.3:
+            u2 = gen.unit_of_dim(tbl.dim(u))
+            # unit sizes that are equal up to rounding make the f64 `<=` of smaller_unit differ from exact arithmetic
+            if u2 is not None and not qtylib.rel_close(tbl.scale(u), tbl.scale(u2), 1e-9):
+                t = ("add", t, ("lit", qtylib.f2bits(chk.rng.uniform(0.1, 100)), u2))
+        src = qtylib.tree_src(tbl, t, chk.rng)
+        if src is not None:
+            cases.append(("registry-product", "S", t, src))
     for _ in range(n_bad):
         cases.append(("malformed", "R", gen.malformed(chk.rng.choice([1, 2, 3])), None))
 
@@ -178,8 +193,9 @@ def run(chk):
             n = idx[k][1]
             if v == "OOS":
                 shown_oos += 1
-            elif v.startswith("ok:") and len(qtylib.parse_unit(v.split(":")[1])) > len(shown[n].unit):
+            elif (v.startswith("ok:") or v.startswith("val=")) and len(qtylib.parse_unit(v.split(":")[1])) > len(shown[n].unit):
                 registry_rewrites += 1      # the session's unit registry found a simpler unit than the heuristics
+                                            # (the value of the displayed result is judged by the oracle above)
             elif v.startswith("ok:") and sorted(qtylib.parse_unit(v.split(":")[1])) == sorted(shown[n].unit):
                 registry_rewrites += 0      # same factors, tie order of equal sort keys (sort_unstable)
             else:
@@ -234,6 +250,7 @@ def run(chk):
             nontrivial.add((sh, tuple(sorted(us))))
     all_used = gen.used_units | {t[2][0].name for k, m, t, s in cases if m == "B"}
     pick = [i for i in (0, len(cases) // 2, len(cases) - n_bad - 5, len(cases) - 1) if 0 <= i < len(cases)]
+    chk.cov["oracle_failure_kinds"] = dict(collections.Counter(cases[n][0] for n, _ in failing))
     chk.cov.update({
         "evaluations": len(cases),
         "distinct_nontrivial": len(nontrivial),
